@@ -87,7 +87,10 @@ def gen_op(rng):
             text += line
             if rng.random() < 0.2:
                 text += rng.choice(["unknown_key = 5\n", "# c\n", "utilization.detect_aws = %s\n" % rng.choice(["no", "off", "false", "YES", "0"]),
-                                    "rlimit_files = %d\n" % rng.randint(1, 99999), "loglevel = %s\n" % rng.choice(["debug", "error", "WARNING", "verbose"])])
+                                    "rlimit_files = %d\n" % rng.randint(1, 99999), "loglevel = %s\n" % rng.choice(["debug", "error", "WARNING", "verbose"]),
+                                    # empty values: quoted, and nothing at all after the separator
+                                    "loglevel = %s\n" % rng.choice(["''", '""', ""]), "utilization.detect_aws = %s\n" % rng.choice(["''", '""']),
+                                    "rlimit_files = %s\n" % rng.choice(["''", '""'])])
     if use_file:
         args += rng.choice([["-c", "@CFG@"], ["--c", "@CFG@"], ["-c=@CFG@"]])
     for name, val in on_cmd.items():
@@ -109,11 +112,33 @@ def gen_op(rng):
     if rng.random() < 0.15 and not legacy_mode:
         args += rng.choice([["-f"], ["--foreground"], ["--loglevel", rng.choice(["debug", "error", "bogus"])], ["--pprof", str(rng.randint(1, 9999))],
                             ["--no-pidfile"], ["--agent=false"], ["--define", "utilization.detect_aws=off"], ["--define", "rlimit_files=%d" % rng.randint(1, 5000)],
+                            ["--define", "loglevel="], ["--define", "loglevel=''"], ["--define=loglevel = \"\""], ["--define", "utilization.detect_aws="],
+                            ["--define", "rlimit_files=''"], ["--loglevel", ""], ["--loglevel="],
                             ["--unknownflag"], ["--pprof", "x"], ["--port"]])
     rng.shuffle(args) if False else None
     # expected winners for the plain string settings (Spec on the implementation)
     bad = any(a in ("--unknownflag",) for a in args) or args[-1:] == ["--port"] or ["--pprof", "x"] == args[-2:] or "bogus" in args
     if not legacy_mode and not bad:
+        # log level: the last assignment on the command line, else the last one in the file, else "info"; an empty value means
+        # the default level in every spelling
+        LEVELS = {"debug": "debug", "verbose": "debug", "error": "error", "warning": "warning", "": "info", "''": "info", '""': "info", "info": "info"}
+        lvl, known = None, True
+        import re as _re
+        for m in _re.finditer(r"^loglevel = (.*)$", text, _re.M):
+            lvl = m.group(1).strip()
+        for i, a in enumerate(args):
+            if a in ("--loglevel",) and i + 1 < len(args):
+                lvl = args[i + 1]
+            elif a.startswith("--loglevel="):
+                lvl = a[len("--loglevel="):]
+            elif a == "--define" and i + 1 < len(args) and args[i + 1].startswith("loglevel="):
+                lvl = args[i + 1][len("loglevel="):]
+            elif a.startswith("--define=loglevel = "):
+                lvl = a[len("--define=loglevel = "):]
+        if lvl is not None:
+            canon = LEVELS.get(lvl.lower())
+            if canon is not None:
+                want.append("want:loglevel=%s" % hx(canon))
         for name in STR:
             v = on_cmd.get(name, in_file.get(name, ""))
             if name == "address":
